@@ -169,6 +169,7 @@ def run(prop, tier):
         for e in o["events"]:
             e = dict(e)
             e["p"] = local[e["p"]]
+            e["ldoc"] = local[e["ldoc"]]
             events.append(e)
     print("timing: driver %.1fs, %d plays, %d observations" % (time.time() - t1, len(plays), len(events)))
     # vacuity: every route / build / outcome the check relies on was really exercised
@@ -179,6 +180,10 @@ def run(prop, tier):
         refused=sum(1 for e in events if e["out"] == "err" and not e["digest"]),
         revoked=sum(1 for e in events if e["via"] == "verify" and e["out"] == "err" and e["digest"] in e["revoked"]),
         not_revoked=sum(1 for e in events if e["via"] == "verify" and e["out"] == "ok"),
+        list_unparsable=sum(1 for e in events if e["via"] == "verify" and not e["lparse"]),
+        list_bad_signature=sum(1 for e in events if e["via"] == "verify" and not e["lvalid"]),
+        list_with_own_digest_refused_before_play=sum(1 for e in events if e["via"] == "verify" and e["lparse"]
+                                                     and e["lvalid"] and e["out"] == "err" and not e["digest"]),
     )
     for k, n in reach.items():
         if n == 0:
@@ -195,15 +200,19 @@ def run(prop, tier):
 
     def mk(tid, kind, evs, end=False):
         loc, pl, out = {}, [], []
+
+        def at(g):
+            if g not in loc:
+                pl.append(plays[g])
+                loc[g] = len(pl)
+            return loc[g]
         for e in evs:
-            if e["p"] not in loc:
-                pl.append(plays[e["p"]])
-                loc[e["p"]] = len(pl)
             x = dict(e)
-            x["p"] = loc[e["p"]]
+            x["p"] = at(e["p"])
+            x["ldoc"] = at(e["ldoc"])
             out.append(x)
         if end:
-            out.append(dict(ev="end", p=1, via="", build="", out="", digest="", revoked=[]))
+            out.append(dict(ev="end", p=1, via="", build="", out="", digest="", revoked=[], ldoc=1, lparse=True, lvalid=True))
         return dict(id=tid, kind=kind, plays=pl, events=out)
 
     traces = []
@@ -281,7 +290,7 @@ def run(prop, tier):
         samples=samples, assumptions=ASSUMPTIONS,
         extra=dict(plays_emitted_by_tlc=len(flats), plays_total=len(plays), digest_classes=len(classes),
                    classes_with_several_plays=len([d for d in classes if len(set(e["p"] for e in classes[d])) > 1]),
-                   plays_never_accepted=len(noacc), random_plays=len([o for o in origin if o != "tlc"]),
+                   plays_never_accepted=len(noacc), random_plays=len([o for o in origin if o.startswith("random")]),
                    reached=reach, binding_selftest=selftest,
                    laws_checked_on_model=["Injective (ASSUME)"] + sorted(set(sum(PARTS.values(), []))),
                    exhaustive=False))
